@@ -55,6 +55,17 @@ CHECKS = {
              'for the traced set; POSIX rename atomicity; completed writes survive a process kill (no power-loss durability claimed); '
              'HDF5 does not write through writable shared mmaps.',
         tech='Lean 4 proof (invariant over system-call traces) + strace trace classification + SIGKILL fault injection', ref='DESIGN.md §3 C06'),
+    'C07': dict(
+        text='Lean 4 theorems: for every bound expression (cube, ellipsoid, mixture, union, neural, nautilus; nested; shifted) every point '
+             'some execution of sample can return satisfies contains (structural induction over a mutually inductive sample relation), '
+             'cube restriction, inner subset outer, union enclosure under regrouping; leaf laws over the reals (sampling radius u^(1/d) < 1, '
+             'frame round trip, rescale+enlarge encloses construction points). Partial: exact real arithmetic; float boundary effects '
+             '(few-ulp) are not covered. Formulas regenerated from basic.py; composite contains of real bounds compared with the Lean '
+             'composition of their leaf answers on >500k probe points; sample-in-contains / enclosure / inner-outer evaluated directly.',
+        note='Trusted: Lean kernel + standard axioms; harness/gen_c07.py, harness/c07.py (leaf extraction); hypotheses: phase shift undone by '
+             'its inverse on sampled points (C16, exact arithmetic), normal draws non-zero, uniform draws in [0,1); MVEE/cholesky/inverse '
+             'numerics are not verified (B Binv = 1 and B B^T = A^-1 are hypotheses).',
+        tech='Lean 4 proof (structural induction on bound expressions + real-analysis leaf laws), partial: exact arithmetic; structural replay', ref='DESIGN.md §3 C07'),
     'C09': dict(
         text='Lean 4 `decide` theorems over persistence tables regenerated from write/read/update of every bound class (all classes x '
              'all guard valuations): read assigns every attribute the behavioural methods use, from the key and under the guard write '
@@ -92,7 +103,7 @@ CHECKS = {
         tech='Lean 4 proof + AST translator + scripted-RNG exact differential', ref='DESIGN.md §3 C14'),
 }
 
-READY = ['C01', 'C02', 'C03', 'C05', 'C06', 'C09', 'C10', 'C12', 'C13', 'C14', 'C15', 'C16']
+READY = ['C01', 'C02', 'C03', 'C05', 'C06', 'C07', 'C09', 'C10', 'C12', 'C13', 'C14', 'C15', 'C16']
 
 PENDING_REASON = 'check under construction in this build round; not yet registered (see DESIGN.md §6 build order)'
 
